@@ -73,7 +73,9 @@ prop("C20", [
 
 prop("C03", [
     dict(engine="verus", unit="dnsreply", fns=["DnsListenerHandler::create_in_reply"]),
-], explanation="create_in_reply: the client reply is the upstream reply under the client's id and question, for any number of records")
+    dict(engine="verus", unit="dnsser", fns=["push_rr", "push_u16", "push_u32", "push_label", "push_str"]),
+], explanation="create_in_reply: the client reply is the upstream reply under the client's id and question, for any number of records; "
+               "push_rr: every name is written with the base offset of the buffer it is written into (emission-point precondition of the compression dictionary)")
 
 prop("C04", [
     dict(engine="verus", unit="dnsser"),
